@@ -20,6 +20,7 @@ pub const DICT: &[&str] = &[
     "translate(", "translate(1e99)", "rotate(45 1)", "scale()", "matrix(1 2 3)", "url(#a)", "url(#", "url()", "none",
     "M1 2 z 5", "M 0 0 Z Z", "M0 0z1", "z", "M 1", "M 1 2 L", "M1,2 3", "M 0 0 h", "M0 0 A 1 1", "M.5.5.5.5", "M1-2-3-4", "M 1e999 0",
     "{{$é}}", "{{$Δ + 1}}", "$é", "${é}", "{{$größe * 2}}", "$_", "{{$_x}}", "{{$9}}", "{{$a.b}}", "{{$ }}",
+    "d-grid-0", "d-grid-1", "d-grid-100", "d-grid-101", "d-hatch-0", "d-crosshatch-0", "d-stipple-0", "d-grid-h-0", "d-grid-v-0", "d-grid--1", "d-grid-4294967296",
     "M 0 0 b 30 10", "M 0 0 B", "m 1 1 q 1", "M0 0 c 1 2 3 4 5", "M 0 0 a 1 1 0 1 1", "M 0 0 t", "M0,0L1,1Z2", "M 0 0 z z z 1 1 1",
 ];
 
@@ -98,7 +99,7 @@ const BAD_SEQS: &[&[u8]] = &[
 /// One hostile document. `explicit work` of every shape is bounded (<= 5e4 element x iteration).
 pub fn hostile_doc(rng: &mut Rng, env: &WorkerEnv) -> (String, Vec<u8>) {
     let d = *rng.pick(DEPTHS);
-    match rng.below(44) {
+    match rng.below(48) {
         0 => (
             "expr-paren-depth".into(),
             format!("<svg><rect wh=\"{{{{{}}}}}\"/></svg>", nest("(", ")", d, "1")).into_bytes(),
@@ -605,7 +606,7 @@ pub fn hostile_doc(rng: &mut Rng, env: &WorkerEnv) -> (String, Vec<u8>) {
             s.push_str("</svg>");
             ("lazy-var-doubling".into(), s.into_bytes())
         }
-        42 => {
+        42 | 45 | 46 => {
             // one svgdx attribute, every value of the dictionary: one element per value
             const ATTRS: &[(&str, &str)] = &[
                 ("wh", "<rect xy=\"0 0\" wh=\"@\"/>"), ("xy", "<rect xy=\"@\" wh=\"2\"/>"), ("cxy", "<rect cxy=\"@\" wh=\"2\"/>"),
@@ -673,6 +674,39 @@ pub fn hostile_doc(rng: &mut Rng, env: &WorkerEnv) -> (String, Vec<u8>) {
             }
             s.push_str("</svg>");
             ("path-grid".into(), s.into_bytes())
+        }
+        44 => {
+            // character data (of every UTF-8 length) and elements on one line: what follows the
+            // text re-emits its indentation (text attributes, comments, debug output)
+            let words = ["Gr\u{f6}\u{df}e: ", "\u{2192}\u{2192} ", "\u{1f600} ", "caf\u{e9} ", "plain ", "\u{301}\u{301}\u{301} ", "\t\u{e9}\t"];
+            let els = [
+                "<rect wh=\"9 4\" text=\"a\\nb\"/>", "<rect wh=\"3\" _=\"note\"/>", "<rect wh=\"3\" __=\"note\"/>", "<text xy=\"0 0\">t\u{e9}</text>",
+                "<circle r=\"2\" text=\"c\"/>", "<g><rect wh=\"2\" text=\"x\"/></g>", "<line xy1=\"0 0\" xy2=\"5 5\" text=\"l\"/>",
+            ];
+            let mut s = String::from("<svg>");
+            if rng.chance(1, 2) {
+                s.push_str("<config debug=\"true\"/>");
+            }
+            for _ in 0..1 + rng.usize(4) {
+                let open = *rng.pick(&["<g>", "<a href=\"#\">", "<g>\n   "]);
+                s.push_str(open);
+                for _ in 0..1 + rng.usize(3) {
+                    s.push_str(*rng.pick(&words[..]));
+                    s.push_str(*rng.pick(&els[..]));
+                }
+                s.push_str(if open.starts_with("<a") { "</a>" } else { "</g>" });
+            }
+            s.push_str("</svg>");
+            ("text-then-element".into(), s.into_bytes())
+        }
+        47 => {
+            // generated styles and definitions are built after the document has been evaluated,
+            // one class at a time and the first failure wins: one pattern class per document
+            let pat = *rng.pick(&["d-grid", "d-grid-h", "d-grid-v", "d-hatch", "d-crosshatch", "d-stipple"]);
+            let n = *rng.pick(&["0", "1", "2", "3", "4", "5", "99", "100", "101", "-1", "00", "007", "4294967296", "1e2", ""]);
+            let class = if n.is_empty() { pat.to_string() } else { format!("{pat}-{n}") };
+            let extra = *rng.pick(&["", " d-red", " d-fill-blue d-thick", " d-grid-5"]);
+            ("pattern-class-boundary".into(), format!("<svg><rect wh=\"20\" class=\"{class}{extra}\"/><circle r=\"3\" cxy=\"^@br\" class=\"{class}\"/></svg>").into_bytes())
         }
         28 => {
             let (dd, why) = docgen::failing_doc(rng);
